@@ -31,6 +31,15 @@ CORPUS = [
     [("init", "xsf.init", "T1"), ("read", "public", (26, 0, 2), "xray")],
     [("init", "magnetic_ff.init", "T1"), ("read", "public", (26, 0, 0), "magnetic_ff")],
     [("init", "activation.init", "T1"), ("read", "public", (27, 59, 0), "neutron_activation")],
+    # a value the user stored before the group was initialised on that table
+    [("assign", "T1", (27, 59, 0), "neutron_activation", 1), ("init", "activation.init", "T1"),
+     ("read", "T1", (27, 59, 0), "neutron_activation"), ("read", "public", (27, 59, 0), "neutron_activation")],
+    [("assign", "T1", (26, 0, 0), "crystal_structure", 2), ("init", "crystal_structure.init", "T1"),
+     ("read", "T1", (26, 0, 0), "crystal_structure"), ("read", "public", (26, 0, 0), "crystal_structure")],
+    [("assign", "T1", (26, 56, 0), "neutron", 3), ("init", "nsf.init", "T1"),
+     ("read", "T1", (26, 56, 0), "neutron"), ("read", "public", (26, 56, 0), "neutron")],
+    [("assign", "T1", (26, 0, 0), "magnetic_ff", 4), ("init", "magnetic_ff.init", "T1"),
+     ("read", "T1", (26, 0, 0), "magnetic_ff"), ("read", "public", (26, 0, 0), "magnetic_ff")],
     # the source comment: Ni.K_alpha = 5 then Cu.K_alpha
     [("assign", "T1", (26, 0, 0), "K_alpha", 5), ("read", "public", (29, 0, 0), "K_alpha"),
      ("read", "T1", (26, 0, 0), "K_alpha")],
